@@ -8,10 +8,15 @@ G135    == {1, 3, 5}
 G1235   == {1, 2, 3, 5}
 G0135   == {0, 1, 3, 5}
 G15     == {1, 5}
+G1_30   == {1, 30}
+G013530 == {0, 1, 3, 5, 30}
 One     == {1}
 OneTwo  == {1, 2}
 Both    == {TRUE, FALSE}
 OnlyOn  == {TRUE}
+AllPcs  == {"loop", "next", "cmp", "arm", "sleep", "decide", "shooting", "done"}
+AtCmp   == {"cmp"}
+L036    == {0, 3, 6}
 
 \* script export: at the end of a walk print the whole decision history (one line per walk)
 Export == AllDone => PrintT(<<"VERIF", ToJson([disc |-> disc, ninst |-> ninst, fin |-> now, hist |-> hist])>>)
